@@ -8,7 +8,7 @@ Import ListNotations.
 
 Definition coherent (s : st) : Prop :=
   forall c, s_cache s = Some c ->
-            create_cache FnLib.fsem FnLib.fsemN gen_sort_facts (s_m s) = Val c.
+            build_cache (s_m s) = Val c.
 
 (** the methods that write containers directly; wrappers (scale_parameter,
     make_variable_static) only go through other public mutators *)
@@ -28,12 +28,12 @@ Section WithFacts.
     (forall c, rc = Val c -> s_cache s' = Some c) /\
     rc = match s_cache s with
          | Some c => Val c
-         | None => create_cache FnLib.fsem FnLib.fsemN gen_sort_facts (s_m s)
+         | None => build_cache (s_m s)
          end.
   Proof.
     unfold ensure_cache. intros Hc H. destruct (s_cache s) as [c|] eqn:Ec.
     - injection H as <- <-. repeat split; auto. intros c' Hc'. injection Hc' as <-. exact Ec.
-    - destruct (create_cache _ _ _ (s_m s)) as [c|e] eqn:Ecc; injection H as <- <-.
+    - destruct (build_cache (s_m s)) as [c|e] eqn:Ecc; injection H as <- <-.
       + repeat split; auto.
         * intros c' Hc'. cbn in Hc'. injection Hc' as <-. exact Ecc.
         * intros c' Hc'. injection Hc' as <-. reflexivity.
@@ -158,9 +158,28 @@ Section WithFacts.
       destruct rc; cbn [fst]; split; assumption.
   Qed.
 
+  (** batch forms: a fold of public calls; the roll-back of scale_parameters drops the cache *)
+  Lemma run_items_coherent l : forall s, coherent s -> coherent (fst (run_items s l)).
+  Proof.
+    induction l as [|mu r IH]; intros s Hc; cbn [run_items]; [exact Hc|].
+    pose proof (mutate_coherent s mu Hc) as H1. destruct (mutate s mu) as [s1 o]. cbn [fst] in H1.
+    destruct o; [apply IH; exact H1|exact H1|exact H1].
+  Qed.
+
+  Lemma batch_with_coherent mode s b : coherent s -> coherent (fst (batch_with mode s b)).
+  Proof.
+    intros Hc. destruct mode; cbn [batch_with]; try (apply run_items_coherent; exact Hc).
+    destruct (validate s b); [exact Hc|].
+    destruct b; try (apply run_items_coherent; exact Hc).
+    pose proof (run_items_coherent (items (ScalePars l)) s Hc) as H1.
+    destruct (run_items s (items (ScalePars l))) as [s1 o]. cbn [fst] in H1.
+    destruct o; cbn [fst]; [exact H1|apply coherent_none|apply coherent_none].
+  Qed.
+
   Lemma step_coherent s o : coherent s -> coherent (fst (step s o)).
   Proof.
-    intros Hc. destruct o; cbn [step]; [apply mutate_coherent; exact Hc|apply ask_coherent; exact Hc].
+    intros Hc. destruct o; cbn [step];
+      [apply mutate_coherent; exact Hc|apply batch_with_coherent; exact Hc|apply ask_coherent; exact Hc].
   Qed.
 
   Lemma fold_coherent h : forall s, coherent s -> coherent (fold_left (fun s o => fst (step s o)) h s).
@@ -168,8 +187,25 @@ Section WithFacts.
     induction h as [|o h IH]; intros s Hc; cbn [fold_left]; [exact Hc|]. apply IH. apply step_coherent. exact Hc.
   Qed.
 
+  Lemma build_cache_val m c :
+    build_cache m = Val c -> create_cache FnLib.fsem FnLib.fsemN gen_sort_facts m = Val c.
+  Proof. unfold build_cache. destruct (arity_all_ok m); [auto|discriminate]. Qed.
+
   Lemma history_coherent h : coherent (run_history h).
   Proof. unfold run_history. apply fold_coherent. intros c H. discriminate H. Qed.
+
+  Lemma history_coherent_create h c :
+    s_cache (run_history h) = Some c ->
+    create_cache FnLib.fsem FnLib.fsemN gen_sort_facts (s_m (run_history h)) = Val c.
+  Proof. intro H. apply build_cache_val. apply (history_coherent h). exact H. Qed.
+
+  Lemma history_coherent_arity h c :
+    s_cache (run_history h) = Some c ->
+    build_cache (s_m (run_history h)) = Val c /\ arity_all_ok (s_m (run_history h)) = true.
+  Proof.
+    intro H. pose proof (history_coherent h c H) as Hb. split; [exact Hb|].
+    unfold build_cache in Hb. destruct (arity_all_ok (s_m (run_history h))); [reflexivity|discriminate Hb].
+  Qed.
 
   (** a coherent state answers every query exactly as the fresh model with the same content *)
   Lemma ask_equals_fresh s q : coherent s -> snd (ask s q) = snd (ask (fresh s) q).
